@@ -328,6 +328,14 @@ func failError(kind string, idx int) error {
 		return engine.NewCommandError(command.NewErrRevertTransactionAlreadyReverted())
 	case "not-found":
 		return engine.NewCommandError(command.NewErrRevertTransactionNotFound())
+	case "compile":
+		return engine.NewCommandError(command.NewErrCompilationFailed(errors.New(msg)))
+	case "no-postings":
+		return engine.NewCommandError(command.NewErrNoPostings())
+	case "no-script":
+		return engine.NewCommandError(command.NewErrNoScript())
+	case "revert-occurring":
+		return engine.NewCommandError(command.NewErrRevertTransactionOccurring())
 	default:
 		return errors.New(msg)
 	}
@@ -383,7 +391,7 @@ func runC18(cfg *vc.Config, rep *vc.Report) {
 				e.IK = fmt.Sprintf("ik-%d-%d", i, k)
 			}
 			if r.Intn(100) < failPct {
-				e.Fail = vc.Pick(r, []string{"insufficient", "conflict", "already-reverted", "not-found", "internal"})
+				e.Fail = vc.Pick(r, []string{"insufficient", "conflict", "already-reverted", "not-found", "internal", "compile", "compile", "no-postings", "no-script", "revert-occurring"})
 			}
 			switch e.Action {
 			case "ADD_METADATA":
